@@ -207,13 +207,35 @@ def unbox(t, ty):
     raise Unsupported(f"cannot unbox to {ty!r}")
 
 
+def has_ite(t):
+    if z3.is_app(t):
+        if t.decl().kind() == z3.Z3_OP_ITE:
+            return True
+        return any(has_ite(c) for c in t.children())
+    return False
+
+
+def pattern_safe(t):
+    """(term usable inside a pattern, [defining equalities])"""
+    if has_ite(t) or (z3.is_app(t) and t.decl().kind() != z3.Z3_OP_UNINTERPRETED):
+        c = fresh("n", t.sort())
+        return c, [c == t]
+    return t, []
+
+
 def is_bytes_fact(t):
+    t, defs = pattern_safe(t)
+    if defs:
+        return z3.And(defs[0], is_bytes_fact(t))
     i = fresh("ib", I)
     return z3.ForAll([i], z3.Implies(z3.And(0 <= i, i < IS.len(t)), z3.And(0 <= IS.at(t, i), IS.at(t, i) < 256)),
                      patterns=[IS.at(t, i)])
 
 
 def is_chars_fact(t):
+    t, defs = pattern_safe(t)
+    if defs:
+        return z3.And(defs[0], is_chars_fact(t))
     i = fresh("ic", I)
     return z3.ForAll([i], z3.Implies(z3.And(0 <= i, i < IS.len(t)), z3.And(0 <= IS.at(t, i), IS.at(t, i) < 0x110000)),
                      patterns=[IS.at(t, i)])
